@@ -171,11 +171,15 @@ def render_tree(d, ch, loc, all_pages, depth, files):
 
     def meta(title, extra=()):
         out = ["---"] if ch.bool() else []
+        if out == [] and title is not None and ch.bool(1, 8):
+            out = ["\ufeff"]          # a UTF-8 byte order mark in front of the first metadata line (joined to it below)
         if title is not None:
             out.append(f"title: {title}")
         out.extend(extra)
         if out and out[0] == "---":
             out.append("---")
+        if out and out[0] == "\ufeff":
+            out = ["\ufeff" + out[1]] + out[2:]
         return "\n".join(out) + ("\n\n" if out else "\n")
 
     base = os.path.join("pages", loc)
@@ -229,7 +233,7 @@ def gen_case(ch: Chooser, excl=()):
         # the project's encoding holds for every page, at every depth
         import base64
         for k in [k for k in files if k.startswith("pages/") and k.endswith(".md")]:
-            files[k] = {"b64": base64.b64encode((files[k] + "\ncaf\xe9 na\xefve\n").encode("latin-1")).decode()}
+            files[k] = {"b64": base64.b64encode((files[k].replace("\ufeff", "") + "\ncaf\xe9 na\xefve\n").encode("latin-1")).decode()}
     return {"files": files, "options": options, "nav": nav, "pages": sorted(pages), "copied": sorted(copied),
             "reported": reported, "may_fail_on": "ghost.md" if has_missing(tree) else None,
             "classes": [f"depth:{depth}"] + (["directive"] if directive else []) + (["titleless"] if reported else []) +
